@@ -20,6 +20,7 @@ import (
 
 	rapid "github.com/zeromicro/go-zero/internal/verifrapid"
 	"github.com/zeromicro/go-zero/internal/verifkit"
+	"github.com/zeromicro/go-zero/tools/goctl/pkg/parser/api/token"
 )
 
 // ------------------------------------------------------------------ known findings
@@ -27,7 +28,21 @@ import (
 // signatures of findings that may be listed as "known" in known_findings.json; inputs matching a
 // listed signature are excluded by construction (counted) so that the search continues past them.
 var knownSignatures = map[string]func(src string) bool{
-	"D8": sigD8,
+	"D8":     sigD8,
+	"C20-F2": sigTabInToken,
+}
+
+// sigTabInToken (C20-F2): a tab character inside a comment or a string literal.
+func sigTabInToken(src string) bool {
+	for _, tok := range scanTokens(src) {
+		switch tok.Type {
+		case token.COMMENT, token.DOCUMENT, token.STRING, token.RAW_STRING:
+			if strings.ContainsRune(tok.Text, '\t') {
+				return true
+			}
+		}
+	}
+	return false
 }
 
 // sigD8: an http-method word directly followed by a token that ends an (empty) path.
@@ -198,7 +213,7 @@ func assumed() map[string]bool {
 // development aid: VERIF_C20_MAYOFF=area,area switches class "may" comments off per grammar area,
 // VERIF_C20_MAYONLY=area,area switches them off everywhere else.
 var allAreas = []string{"syntax", "kv", "import", "importgroup", "typeexpr", "typegroup", "datatype", "field", "emptystruct", "atserver",
-	"servervalue", "servicehead", "emptyservice", "doc", "handler", "route", "routebody", ""}
+	"servervalue", "servicehead", "emptyservice", "doc", "handler", "route", "afterpath", "inbody", "afterreq", "afterreturns", "afterresp", ""}
 
 var mayOffAreas = func() map[string]bool {
 	m := map[string]bool{}
